@@ -63,6 +63,7 @@ def main(repo, out):
         rows.append((n, bpp[v], ident[v]))
     # the guard
     guard = False
+    bound = None
     try: isrc = strip_comments(open(os.path.join(repo, 'src/formats/anm/image_io.rs')).read())
     except OSError: isrc = ''; notes.append('src/formats/anm/image_io.rs not found')
     body, _ = block_after(isrc, r'fn\s+produce_image_from_entry\s*\([^)]*\)\s*->\s*Result<image::RgbaImage,\s*String>\s*')
@@ -73,13 +74,20 @@ def main(repo, out):
         m = re.search(r'let(\w+)=cformat\.bytes_per_pixel\(\)\*content_widthasusize\*content_heightasusize;iftexture_data\.data\.len\(\)!=\1\{returnErr\(', t)
         if m and 0 <= m.start() < i_tr: guard = True
         for needle in ('BgraImage::from_raw(content_width,content_height,&content_argb[..]).expect("sizeerror?!")',
-                       'letoutput_width=content_width+offset_x;', 'letoutput_height=content_height+offset_y;',
                        'vec![0xFF;4*output_widthasusize*output_heightasusize]'):
             if needle not in t: notes.append('unrecognised produce_image_from_entry: missing `%s`' % needle)
+        # the size of the padded output image: plain u32 additions (before fix d8a7ff5), or checked additions
+        # with a bound on the number of pixels
+        mb = re.search(r'constMAX_OUTPUT_PIXELS:u64=1<<(\d+);let\(output_width,output_height\)=match\(content_width\.checked_add\(offset_x\),'
+                       r'content_height\.checked_add\(offset_y\)\)\{\(Some\(w\),Some\(h\)\)ifwasu64\*hasu64<=MAX_OUTPUT_PIXELS=>\(w,h\),_=>returnErr\(', t)
+        if mb: bound = 1 << int(mb.group(1))
+        elif 'letoutput_width=content_width+offset_x;' in t and 'letoutput_height=content_height+offset_y;' in t: bound = None
+        else: notes.append('unrecognised produce_image_from_entry: the computation of output_width / output_height')
     text = '(* GENERATED by gen/texfmt.py from src/image/color.rs and src/formats/anm/image_io.rs -- do not edit *)\n'
     text += 'From TV Require Import Base.I32 Model.Texture.\nOpen Scope Z_scope.\n'
     text += 'Definition gen_color_formats : list cfmt := [%s].\n' % '; '.join('mkCF %d %d %s' % (n, b, 'true' if i else 'false') for n, b, i in rows)
     text += 'Definition gen_extract_guard : bool := %s.\n' % ('true' if guard else 'false')
+    text += 'Definition gen_extract_bound : option Z := %s.\n' % ('Some %d' % bound if bound is not None else 'None')
     text += '(* translator notes:\n' + ''.join('   %s\n' % n.replace('*)', '* )') for n in notes) + '*)\n'
     write_if_changed(out, text)
     for n in notes: print('texfmt: ' + n)
